@@ -79,9 +79,10 @@ def cache_put(name, key, val):
 
 PLAN = {
     "quick": [("equilibrium", 14), ("mixed", 12), ("rebuild", 8), ("rebuild_finish", 14), ("recover", 6), ("shortage", 8), ("aftermath", 6), ("exhaust", 8), ("nonreal", 6), ("overkill", 8), ("fast_rebuild", 6), ("relay", 8)],
-    "thorough": [("equilibrium", 60), ("mixed", 90), ("rebuild", 60), ("rebuild_finish", 60), ("recover", 40), ("shortage", 60), ("aftermath", 40), ("exhaust", 60), ("nonreal", 40), ("overkill", 40), ("fast_rebuild", 30), ("relay", 30)],
+    "thorough": [("equilibrium", 40), ("mixed", 60), ("rebuild", 40), ("rebuild_finish", 40), ("recover", 30), ("shortage", 40),
+                 ("aftermath", 30), ("exhaust", 40), ("nonreal", 30), ("overkill", 30), ("fast_rebuild", 20), ("relay", 20)],
 }
-MAX_STEPS_CHECKED = {"quick": 6, "thorough": 10}
+MAX_STEPS_CHECKED = {"quick": 6, "thorough": 8}
 
 
 def suite_scenarios(seed, tier):
